@@ -183,10 +183,10 @@ func singleFeatureSpecs() []spec {
 	return out
 }
 
-// fullFilters: filters with every member present (one per #a choice and per member order).
+// fullFilters: filters with every member present (one per #a choice of the product and per member order).
 func fullFilters() [][nFDims]int {
 	var out [][nFDims]int
-	for a := 1; a < len(naddrChoices); a++ {
+	for a := 1; a < fDims[fA].prodLen(); a++ {
 		for ord := 0; ord <= 1; ord++ {
 			out = append(out, [nFDims]int{fIDs: 3, fAuthors: 1, fKinds: 3, fE: 1, fP: 1, fT: 1, fA: a, fUpE: 1, fSince: 2, fUntil: 2, fLimit: 3, fOrder: ord})
 		}
@@ -218,8 +218,8 @@ func c11Complete(c *vk.Ctx) {
 	pairMode := vk.Pick(c, wsSingle, wsPairs)
 
 	c.P.Rule = fmt.Sprintf("well-formed client messages x insignificant whitespace, every text through W (own strict tokenizer + the statement's constraints; must say well-formed) and through the gate utf8.Valid && json.Valid && ParseClientMsg && ValidClientMsg (must admit). "+
-		"EVENT: full product of %d events (kind {1,0,5,65535} x created_at {1700000000,0,1} x 6 tag lists x 5 contents x 4 member orders x 3 hex alphabets); AUTH: kind 22242 x the same product restricted to tag lists {none, relay+challenge}; "+
-		"REQ and COUNT: full product of %d single filters (ids/authors {absent,[x],[],[x,y]} x kinds {absent,[0],[65535],[1,7],[]} x #e {absent,[x],[]} x #p x #t x #a {absent, d empty, d=x, d=x:y:z, replaceable kind} x #E x since {absent,0,5} x until {absent,5,9} x limit {absent,0,1,500}), every %d-th also with members in reverse order; all two-filter messages over a core of %d filters; 3 subscription ids; CLOSE. "+
+		"EVENT: full product of %d events (kind {1,0,5,65535,32767,32768} x created_at {1700000000,0,1} x 6 tag lists x 5 contents x 4 member orders x 3 hex alphabets); AUTH: kind 22242 x the same product restricted to tag lists {none, relay+challenge}; "+
+		"REQ and COUNT: full product of %d single filters (ids/authors {absent,[x],[],[x,y]} x kinds {absent,[0],[65535],[1,7],[],[32767,32768]} x #e {absent,[x],[]} x #p x #t x #a {absent, 30023 with d empty / d=x / d=x:y:z, 10002, 65535, 32768} x #E x since {absent,0,5} x until {absent,5,9} x limit {absent,0,1,500}), every %d-th also with members in reverse order; one at a time also: event kinds at the NIP-01 range boundaries {9999,10000,19999,20000,29999,30000,39999,40000}, filter kinds lists of the same boundaries, #a values with kind part in {0,1,9999,10000,30000,32767,35000,39999,40000}; all two-filter messages over a core of %d filters (every single-choice filter); 3 subscription ids; CLOSE. "+
 		"Whitespace {\" \",\"\\n\",\"\\t\\r\"} at every token boundary including before the first '[' and after the last ']' (one position at a time, and all positions at once with/without the leading one) for: every EVENT/AUTH/CLOSE message, every plain and single-feature message, the all-members filters, every %d-th filter of the product and every %d-th two-filter message%s. "+
 		"Non-trivial = distinct texts (64-bit hash set) on which W makes a claim.",
 		nEv, nF, strideOrd, len(filterCore()), strideWS, stride2,
